@@ -51,6 +51,7 @@ type Payload struct {
 	Label   string          `json:"label,omitempty"`
 	Path    string          `json:"path,omitempty"`
 	HasNext *bool           `json:"hasNext,omitempty"`
+	ExtKeys []string        `json:"extKeys,omitempty"` // keys of the payload's `extensions`
 }
 
 // Result is one line of output.
@@ -229,6 +230,10 @@ func RunCase(es graphql.ExecutableSchema, c Case) Result {
 			if resp.Data == nil {
 				p.Data = nil
 			}
+			for k := range resp.Extensions {
+				p.ExtKeys = append(p.ExtKeys, k)
+			}
+			sort.Strings(p.ExtKeys)
 			res.Payloads = append(res.Payloads, p)
 			if !isSub {
 				// the payloads of one query (initial + deferred groups) are held by transports that batch them: what
